@@ -61,6 +61,33 @@ func main() {
 			nv += v.Signature() + ";"
 		}
 		fmt.Fprintf(realStdout, "%s stmts=%d images=%d viol=%s harness=%s\n", res.EventHash, res.Stmts, res.Images, nv, res.Harness)
+	case "genfuzz":
+		// generator self-test: build plans for n consecutive seeds, report any panic
+		if len(os.Args) < 6 {
+			usage()
+		}
+		from, _ := strconv.ParseUint(os.Args[4], 10, 64)
+		n, _ := strconv.ParseUint(os.Args[5], 10, 64)
+		bad := 0
+		for seed := from; seed < from+n; seed++ {
+			func() {
+				defer func() {
+					if r := recover(); r != nil {
+						bad++
+						if bad <= 5 {
+							fmt.Printf("generator panic: prop=%s tier=%s seed=%d: %v\n", os.Args[2], os.Args[3], seed, r)
+						}
+					}
+				}()
+				pf := core.ProfileFor(os.Args[2], os.Args[3], seed)
+				p := core.Generate(pf, seed)
+				_ = p.JSON()
+			}()
+		}
+		fmt.Printf("genfuzz %s %s: %d seeds from %d, %d panics\n", os.Args[2], os.Args[3], n, from, bad)
+		if bad > 0 {
+			os.Exit(1)
+		}
 	case "plan":
 		if len(os.Args) < 5 {
 			usage()
